@@ -199,11 +199,11 @@ MUTANTS += [
      "edits": [(AR, "                    if exitcode == self.WORKER_BOOT_ERROR:", "                    if False:")]},
     {"name": "c03-ttou-below-one", "prop": "C03", "checks": ["C03"],
      "edits": [(AR, "        if self.num_workers <= 1:\n            return", "        if self.num_workers <= 0:\n            return")]},
-    {"name": "c03-spawn-one-too-many", "prop": "C03", "checks": ["C03"],
-     "edits": [(AR, "        for _ in range(self.num_workers - len(self.WORKERS)):", "        for _ in range(self.num_workers - len(self.WORKERS) + 1):")]},
-    {"name": "c03-esrch-does-not-forget-worker", "prop": "C03", "checks": ["C03"],
-     "edits": [(AR, "                try:\n                    worker = self.WORKERS.pop(pid)\n                    worker.tmp.close()\n                    self.cfg.worker_exit(self, worker)\n                    return", "                try:\n                    return")]},
-    {"name": "c03-hup-does-not-spawn-new", "prop": "C03", "checks": ["C03"],
+    {"name": "c03-spawn-only-when-two-short", "prop": "C03", "checks": ["C03"],
+     "edits": [(AR, "        if len(self.WORKERS) < self.num_workers:\n            self.spawn_workers()", "        if len(self.WORKERS) < self.num_workers - 1:\n            self.spawn_workers()")]},
+    {"name": "c03-nonzero-exit-not-forgotten", "prop": "C03", "checks": ["C03"],
+     "edits": [(AR, "                    worker = self.WORKERS.pop(wpid, None)\n                    if not worker:\n                        continue", "                    if exitcode > 1:\n                        continue\n                    worker = self.WORKERS.pop(wpid, None)\n                    if not worker:\n                        continue")]},
+    {"name": "c10-hup-does-not-spawn-new", "prop": "C10", "checks": ["C10"],
      "edits": [(AR, "        for _ in range(self.cfg.workers):\n            self.spawn_worker()\n\n        # manage workers\n        self.manage_workers()", "        # manage workers\n        self.manage_workers()")]},
     {"name": "c03-app-load-error-exit-code-lost", "prop": "C03", "checks": ["C03"],
      "edits": [(AR, "                        raise HaltServer(reason, self.APP_LOAD_ERROR)", "                        raise HaltServer(reason, 1)")]},
@@ -250,4 +250,21 @@ MUTANTS += [
      "edits": [(AR, "        except (StopIteration, KeyboardInterrupt):\n            self.halt()", "        except (StopIteration, KeyboardInterrupt):\n            self.halt(exit_status=1)")]},
     {"name": "c04-gevent-no-graceful-wait", "prop": "C04", "checks": ["C04"],
      "edits": [(GE, "            while time.time() - ts <= self.cfg.graceful_timeout:\n                accepting = 0", "            while time.time() - ts <= 0.01:\n                accepting = 0")]},
+]
+
+MUTANTS += [
+    # ---- C10 -------------------------------------------------------------------------------
+    {"name": "c10-reload-recreates-listeners", "prop": "C10", "checks": ["C10"],
+     "edits": [(AR, "        if old_address != self.cfg.address:\n            # close all listeners", "        if True:\n            # close all listeners")]},
+    {"name": "c10-old-workers-get-quit", "prop": "C10", "checks": ["C10"],
+     "edits": [(AR, "            (pid, _) = workers.pop(0)\n            self.kill_worker(pid, signal.SIGTERM)", "            (pid, _) = workers.pop(0)\n            self.kill_worker(pid, signal.SIGQUIT)")]},
+    {"name": "c10-app-reload-skipped", "prop": "C10", "checks": ["C10"],
+     "edits": [(AR, "        # reload conf\n        self.app.reload()\n        self.setup(self.app)", "        # reload conf\n        self.setup(self.app)")]},
+    {"name": "c10-retire-newest", "prop": "C10", "checks": ["C10"],
+     "edits": [(AR, "        workers = sorted(workers, key=lambda w: w[1].age)", "        workers = sorted(workers, key=lambda w: -w[1].age)")]},
+    {"name": "c10-env-not-reset-on-reload", "prop": "C10", "checks": ["C10"],
+     "edits": [(AR, "        if self.cfg.env:\n            for k, v in self.cfg.env.items():\n                os.environ[k] = v\n\n        if self.cfg.preload_app:", "        if self.cfg.env and 'GUNICORN_VERIF_X' in os.environ:\n            for k, v in self.cfg.env.items():\n                os.environ[k] = v\n\n        if self.cfg.preload_app:")]},
+    {"name": "c10-sync-worker-closes-listener-on-term", "prop": "C10", "checks": ["C10"],
+     "edits": [(SY, "            try:\n                self.accept(listener)\n                # Keep processing clients until no one is waiting. This\n                # prevents the need to select() for every client that we\n                # process.\n                continue", "            try:\n                self.accept(listener)\n                continue") if False else
+               (BW, "    def handle_exit(self, sig, frame):\n        self.alive = False", "    def handle_exit(self, sig, frame):\n        self.alive = False\n        for s in self.sockets:\n            s.close()")]},
 ]
